@@ -42,8 +42,8 @@ ASSUMPTIONS = [
 ]
 NOTES = ["Ramsey witness: the argument s is overwritten by the mapping variable group; cases with k != s carry the "
          "class 'ramseywitness:k!=s' (known finding D25)",
-         "GraphIsomorphism(..., nontrivial=True) never reads the flag; such cases carry the class 'iso:nontrivial-flag' "
-         "(known finding D36)"]
+         "GraphIsomorphism(..., nontrivial=True): cases carry the class 'iso:nontrivial-flag'; documented witnesses = "
+         "isomorphisms other than the identical mapping (D36, fixed in /repo 9050d5b: the flag used to be ignored)"]
 
 
 # ---------------------------------------------------------------- graphs
@@ -518,8 +518,12 @@ def cases(ctx):
             infos.append(("g2_ramseywit", dict(g=gr(1, []), k=2, s=1, symbreak=sb, opb=opb)))  # unsat, documented sat
             infos.append(("g2_ramseywit", dict(g=gr(0, []), k=1, s=0, symbreak=sb, opb=opb)))
             infos.append(("g2_ramseywit", dict(g=gr(4, [(1, 2), (2, 3), (3, 4)]), k=2, s=3, symbreak=sb, opb=opb)))
-        infos.append(("g2_iso", dict(g1=gr(1, []), g2=gr(1, []), nontrivial=True, opb=opb)))   # D36 replay
+        infos.append(("g2_iso", dict(g1=gr(1, []), g2=gr(1, []), nontrivial=True, opb=opb)))   # D36 regression (fixed)
         infos.append(("g2_iso", dict(g1=gr(3, [(1, 2)]), g2=gr(3, [(2, 1)]), nontrivial=True, opb=opb)))
+        infos.append(("g2_iso", dict(g1=gr(0, []), g2=gr(0, []), nontrivial=True, opb=opb)))
+        infos.append(("g2_iso", dict(g1=gr(3, [(1, 2)]), g2=gr(2, [(2, 1)]), nontrivial=True, opb=opb)))
+        infos.append(("g2_iso", dict(g1=gr(2, []), g2=gr(4, [(3, 4)]), nontrivial=True, opb=opb)))
+        infos.append(("g2_iso", dict(g1=gr(2, []), g2=gr(0, []), nontrivial=True, opb=opb)))
         infos.append(("g2_iso", dict(g1=gr(0, []), g2=gr(0, []), opb=opb)))
         infos.append(("g2_iso", dict(g1=gr(0, []), g2=gr(2, [(1, 2)]), opb=opb)))
         infos.append(("g2_iso", dict(g1=gr(3, [(1, 2)]), g2=gr(0, []), opb=opb)))
